@@ -171,6 +171,15 @@ class LedgerInvariant:
         self.excused_idx[node.name] = len(node.kernel.ledger)
         led = node.kernel.ledger_set() - self.excused.get(node.name, set())
         trk = tracked_kernel_keys(node)
+        if self.w.scenario.get('byz', {}).get('kind') == 'reuse_spi_request':
+            # a peer that re-uses an SPI makes (daddr, proto, SPI) name two SAs in turn: once the daemon has added a triple twice, "additions
+            # minus deletions" no longer says which of the two a DELSA removed (thorough soak of C14, seed 501016343); such triples are
+            # left out, the twin-present case (EEXIST, nothing added twice) stays judged
+            seen, twice = set(), set()
+            for op, key, _, _ in node.kernel.ledger:
+                if op == 'add':
+                    (twice if key in seen else seen).add(key)
+            led, trk = led - twice, trk - twice
         self.checks += 1
         if led or trk:
             self.nonempty += 1
